@@ -365,6 +365,40 @@ func impossibleAt(call *ssa.Call, conds []paramRel) (bool, string) {
 	return len(conds) > 0, strings.Join(why, "; ")
 }
 
+// impossibleAtCallers: every argument of the condition is a parameter of fn passed through
+// unchanged, and at every static call site of fn in the scope the condition is excluded.
+func impossibleAtCallers(p *Program, fn *ssa.Function, call *ssa.Call, conds []paramRel, scope map[*ssa.Function]bool) (bool, string) {
+	args := call.Common().Args
+	var mapped []paramRel
+	for _, c := range conds {
+		xi, okx := paramOf(fn, stripConvert(args[c.X]))
+		yi, oky := paramOf(fn, stripConvert(args[c.Y]))
+		if !okx || !oky {
+			return false, ""
+		}
+		mapped = append(mapped, paramRel{c.Op, xi, yi})
+	}
+	sites := 0
+	var whys []string
+	for _, g := range sortedFuncs(p, scope) {
+		for _, sc := range callsIn(p, g) {
+			if sc.call.Common().StaticCallee() != fn {
+				continue
+			}
+			sites++
+			ok, why := impossibleAt(sc.call, mapped)
+			if !ok {
+				return false, ""
+			}
+			whys = append(whys, "at the call in "+p.FuncName(g)+": "+why)
+		}
+	}
+	if sites == 0 {
+		return false, ""
+	}
+	return true, "the arguments are this function's parameters, and " + strings.Join(whys, "; ")
+}
+
 func runDiscardGuard(p *Program, r *Report, a *verifyAnchors) {
 	runDiscardGuardIn(p, r, a, "R04b", a.vc, "the verification closure", 4)
 }
@@ -390,6 +424,15 @@ func runDiscardGuardIn(p *Program, r *Report, a *verifyAnchors, rule string, sco
 			// 1. generic: the callee's error condition over its parameters is excluded by a guard
 			if conds, ok := errorConds(p, callee, 0); ok {
 				if imp, why := impossibleAt(sc.call, conds); imp {
+					r.Discharge(rule, key, posOf(p, sc.call), "discarded error cannot be non-nil here: "+why, true)
+					continue
+				}
+			}
+			// 1b. the same, one level up: the arguments are parameters of this function handed through unchanged,
+			// and at every call site of this function (inside the scope) a guard excludes the condition
+			// (a row-advance loop extracted into a helper "because the caller already checks")
+			if conds, ok := errorConds(p, callee, 0); ok {
+				if imp, why := impossibleAtCallers(p, fn, sc.call, conds, scope); imp {
 					r.Discharge(rule, key, posOf(p, sc.call), "discarded error cannot be non-nil here: "+why, true)
 					continue
 				}
@@ -473,9 +516,18 @@ func ancestorLemma(p *Program, call *ssa.Call) bool {
 		}
 	}
 	x, d, rows := call.Common().Args[0], call.Common().Args[1], call.Common().Args[2]
+	same := func(a, b ssa.Value) bool { return a == b || sameValue(a, b) }
 	for _, gd := range guardsAtInstr(call) {
-		c, ok := gd.Cond.(*ssa.Call)
-		if !ok || !gd.Truth {
+		cond, truth := gd.Cond, gd.Truth
+		for {
+			u, ok := cond.(*ssa.UnOp)
+			if !ok || u.Op != token.NOT {
+				break
+			}
+			cond, truth = u.X, !truth
+		}
+		c, ok := cond.(*ssa.Call)
+		if !ok || !truth {
 			continue
 		}
 		sc := c.Common().StaticCallee()
@@ -486,7 +538,7 @@ func ancestorLemma(p *Program, call *ssa.Call) bool {
 		if !ok || par.Common().StaticCallee() == nil || par.Common().StaticCallee().Name() != "Parent" {
 			continue
 		}
-		if par.Common().Args[0] == d && c.Common().Args[1] == x && c.Common().Args[2] == rows {
+		if same(par.Common().Args[0], d) && same(c.Common().Args[1], x) && same(c.Common().Args[2], rows) {
 			return true
 		}
 	}
@@ -1128,7 +1180,7 @@ func runIndexGuard(p *Program, r *Report, a *verifyAnchors) {
 					// that a successful verification has accepted
 					rel, _ := relOf(g)
 					other := rel.Y
-					if isLenAny(rel.X) {
+					if isLenAny(rel.X) && !isIdx(rel.X) {
 						other = rel.X
 					}
 					isOther := func(v ssa.Value) bool {
@@ -1211,7 +1263,7 @@ func runIndexGuard(p *Program, r *Report, a *verifyAnchors) {
 				} else if g, ok := holdsRel(gs, []token.Token{token.LSS}, isIdx, isLenAny); ok {
 					rel, _ := relOf(g)
 					other := rel.Y
-					if isLenAny(rel.X) {
+					if isLenAny(rel.X) && !isIdx(rel.X) {
 						other = rel.X
 					}
 					isOther := func(v ssa.Value) bool {
